@@ -22,4 +22,13 @@ func init() {
 		rule{name: "O-immut", run: ruleOImmut},
 		rule{name: "O-pure", run: ruleOPureExecute},
 	)
+	register("C07",
+		"P-exec: every partial operation reachable from Engine.Execute is guarded on every path.",
+		nil,
+		rule{name: "T-op1", run: ruleTOp},
+		rule{name: "T-gate", run: ruleTGate},
+		rule{name: "P-nilsrc", run: ruleNilSrc},
+		rule{name: "P-exec", run: rulePExec},
+		rule{name: "TERM", run: ruleTermExec},
+	)
 }
